@@ -52,6 +52,7 @@ var programs = map[string]func() *progs.Prog{
 	"storemap-2-3":    func() *progs.Prog { return progs.StoreMap(2, 3) },
 	"twostages-0-0-0": func() *progs.Prog { return progs.TwoStages(0, 0, 0) },
 	"twostages-1-4-6": func() *progs.Prog { return progs.TwoStages(1, 4, 6) },
+	"twostages-1-2-3": func() *progs.Prog { return progs.TwoStages(1, 2, 3) },
 	"samestage-1-7-3": func() *progs.Prog { return progs.SameStage(1, 7, 3) },
 	"index":           func() *progs.Prog { return progs.Index() },
 	"clocksparse2-2":  func() *progs.Prog { return progs.ClockSparse2(2) },
@@ -392,16 +393,17 @@ func Run(ctx *core.Ctx) int {
 		{Prog: "twostages-0-0-0", Seg: 5, Prod: true, Start: 2, Stop: 6, Final: 5},
 		{Prog: "samestage-1-7-3", Seg: 4, Prod: false, Start: 9, Stop: 11, Final: -1},
 		{Prog: "index", Seg: 4, Prod: true, Start: 5, Stop: 9, Final: 8},
+		{Prog: "storemap-2-3", Seg: 3, Prod: true, Start: 4, Stop: 11, Final: 9},
+		{Prog: "twostages-1-4-6", Seg: 5, Prod: true, Start: 7, Stop: 13, Final: 10},
 	}
-	maxFiles := 11
+	maxFiles := 13
 	if ctx.Thorough() {
 		shapes = append(shapes,
-			Shape{Prog: "twostages-1-4-6", Seg: 5, Prod: true, Start: 7, Stop: 13, Final: 10},
-			Shape{Prog: "storemap-2-3", Seg: 3, Prod: true, Start: 4, Stop: 11, Final: 9},
 			Shape{Prog: "clocksparse2-2", Seg: 4, Prod: true, Start: 5, Stop: 10, Final: 8},
 			Shape{Prog: "index", Seg: 3, Prod: true, Start: 4, Stop: 10, Final: 9},
+			Shape{Prog: "twostages-1-2-3", Seg: 2, Prod: true, Start: 3, Stop: 8, Final: 8}, // a stage starting later than the stores below it
 		)
-		maxFiles = 16
+		maxFiles = 17
 	}
 	sizes := map[string]int{}
 	capped := map[string]bool{}
@@ -426,6 +428,34 @@ func Run(ctx *core.Ctx) int {
 					mask = k ^ (k >> 1) // Gray-code order beyond the exhaustive bound
 				}
 				if !emit(Case{Shape: s, Mask: mask}) {
+					return
+				}
+			}
+			if limit != total {
+				// beyond the exhaustive bound, additionally: every cache with at most 3 files present and every cache
+				// with at most 3 files missing (bounded deviation from the empty and from the complete cache)
+				var rec func(from, left int, mask uint64) bool
+				rec = func(from, left int, mask uint64) bool {
+					if mask>>uint(maxFiles) != 0 { // the others are in the Gray-code part
+						if !emit(Case{Shape: s, Mask: mask}) || !emit(Case{Shape: s, Mask: (total - 1) &^ mask}) {
+							return false
+						}
+					} else if mask != 0 {
+						if !emit(Case{Shape: s, Mask: (total - 1) &^ mask}) {
+							return false
+						}
+					}
+					if left == 0 {
+						return true
+					}
+					for i := from; i < n; i++ {
+						if !rec(i+1, left-1, mask|1<<uint(i)) {
+							return false
+						}
+					}
+					return true
+				}
+				if !rec(0, 3, 0) {
 					return
 				}
 			}
@@ -459,7 +489,7 @@ func Run(ctx *core.Ctx) int {
 	if !ex {
 		ctx.Cov["capped_shapes"] = capped
 	}
-	ctx.Cov["rule"] = fmt.Sprintf("per (program, request shape): U = files of a complete run on an empty cache + every file each of its segment jobs writes when run alone to completion without the files of its segment (partial snapshots; files of non-output modules that a clean run may or may not contain because tier1 cancels running jobs when the stream is complete); every subset of U (all 2^n for n <= %d, the first 2^%d subsets in Gray-code order beyond) is laid out as the initial cache and the request is served on it; deviation <= 1: one file additionally present as a half-written <name>.<rand>.tmp leftover, next to or instead of the complete file. Oracle: the request completes; its stream equals the empty-cache run's; every file left behind has the name of a file of U and decodes (zstd, then store/exec-out/index codec) to the same content; no other file appears. Non-trivial: the subset is neither empty nor complete.", maxFiles, maxFiles)
+	ctx.Cov["rule"] = fmt.Sprintf("per (program, request shape): U = files of a complete run on an empty cache + every file each of its segment jobs writes when run alone to completion without the files of its segment (partial snapshots; files of non-output modules that a clean run may or may not contain because tier1 cancels running jobs when the stream is complete); every subset of U (all 2^n for n <= %d, beyond that the 2^%d subsets of the first files in Gray-code order plus every subset with <= 3 files present or <= 3 files missing) is laid out as the initial cache and the request is served on it; deviation <= 1: one file additionally present as a half-written <name>.<rand>.tmp leftover, next to or instead of the complete file. Oracle: the request completes; its stream equals the empty-cache run's; every file left behind has the name of a file of U and decodes (zstd, then store/exec-out/index codec) to the same content; no other file appears. Non-trivial: the subset is neither empty nor complete.", maxFiles, maxFiles)
 	ctx.Assume = []string{
 		"'equivalent to a clean run' is read as: no file differs from the clean run's file of the same name (a request that finds a later snapshot need not re-create earlier ones)",
 		"files do not disappear during the request",
